@@ -4,7 +4,7 @@ theorems: soundness with respect to the grammar `GnfaSpec.Renders`, and complete
 to the model of `re._validate` (`simpleRxValid`: `lexSimple` + `validate_tokens`).
 
 The label syntax (automata/regex, restricted to what `_validate_transition_invalid_symbols`
-admits over an alphabet of literal characters): literals, `|`, juxtaposition, postfix `*` `?`,
+allows over an alphabet of literal characters): literals, `|`, juxtaposition, postfix `*` `?`,
 grouping `( … )`, and `()` for the empty string.
 
 `parseLabel` is a shift/reduce parser, structurally recursive on the string.  Its state is the
@@ -483,7 +483,7 @@ theorem parseLabel_iff_valid {s : Str} (hne : s ≠ []) (hch : ∀ c ∈ s, RCha
 
 /-! ### the label check of the GNFA constructor -/
 
-/-- Over an alphabet of literal characters, every character admitted by
+/-- Over an alphabet of literal characters, every character allowed by
 `set(regex) - (input_symbols | {'*','|','(',')','?'})` is a grammar character. -/
 theorem rchar_of_mem {syms : List Char} (hlit : ∀ a ∈ syms, IsLit a) {c : Char}
     (hc : c ∈ syms ++ ['*', '|', '(', ')', '?']) : RChar c := by
